@@ -8,7 +8,7 @@ use refimpl as r;
 
 fn budget(t: Tier) -> u64 {
     match t {
-        Tier::Quick => 500,
+        Tier::Quick => 1_500,
         Tier::Thorough => 30_000,
     }
 }
